@@ -102,7 +102,7 @@ impl KValue {
                 KMap::with_contents(data, meta).into()
             }
             KValue::Iterator(i) => i.make_copy()?.into(),
-            KValue::Object(o) => o.try_borrow()?.copy().into(),
+            KValue::Object(o) => o.try_borrow()?.deep_copy().into(),
             _ => self.clone(),
         };
 
